@@ -1,55 +1,51 @@
-import GoSquare.Properties.C09
-/-! # C12 — transaction share ranges are exact (compact splitter half)
+import GoSquare.Proofs.C12Core
+import GoSquare.Proofs.TxRange
+import GoSquare.Proofs.RangeParse
+import GoSquare.Proofs.BlobRange
+/-! # C12 — transaction and blob share ranges are exact
 
-The splitter's per-transaction range is exactly the set of shares holding a byte of the
-transaction's length-prefixed encoding: from the share of its first byte to one past the share
-of its last byte. (The builder's `FindTxShareRange` / `BlobShareRange` are decided by the BUILDER
-correspondence stream and oracle; see the evidence file.) -/
+`Proofs/C12Core.lean` (namespace `GoSquare.C12`): the splitter's per-transaction range is exactly
+the shares holding a byte of the transaction's length-prefixed encoding. `Proofs/TxRange.lean`:
+the builder's `FindTxShareRange` / `square.TxShareRange` report exactly that range, for ordinary
+transactions and for wrapped pay-for-blob transactions as written in the square; out-of-range
+indexes are errors. `Proofs/RangeParse.lean`: parsing just the reported shares yields a list
+containing the transaction (via C11). `Proofs/BlobRange.lean`: blob ranges are exactly the blob's
+shares (C04). -/
 namespace GoSquare.C12
-open GoSquare Spec
+open GoSquare Builder Spec
 
-/-- index of the compact share holding stream byte `off` -/
-def shareOf (off : Nat) : Nat := (posOf off).1
+/-- **C12 (the reported range is the set of shares holding a byte of the unit).** -/
+theorem range_is_the_set_of_shares (X len k : Nat) (hlen : 1 ≤ len) :
+    (shareOf X ≤ k ∧ k < shareOf (X + len - 1) + 1) ↔ ∃ off, X ≤ off ∧ off < X + len ∧ shareOf off = k :=
+  TxRange.mem_range_iff X len k hlen
 
-theorem shareOf_closed_form (off : Nat) : shareOf off = if off < 474 then 0 else 1 + (off - 474) / 478 := by
-  unfold shareOf posOf; split <;> rfl
+/-- **C12 (`FindTxShareRange` on an exported builder).** -/
+theorem findTxShareRange_is_exact (b : Builder) (hd : b.done = true) (i : Nat) :
+    (∀ (hi : i < b.txs.length),
+      b.findTxShareRange (i : Int) = .ok (b,
+        shareOf (TxRange.before (b.txs.map List.length) i),
+        shareOf (TxRange.before (b.txs.map List.length) i + TxRange.unitLen (b.txs[i]).length - 1) + 1)) ∧
+    (∀ (hi : i < b.pfbs.length),
+      let T := compactSharesNeeded (TxRange.before (b.txs.map List.length) b.txs.length)
+      b.findTxShareRange ((b.txs.length + i : Nat) : Int) = .ok (b,
+        T + shareOf (TxRange.before (b.pfbs.map (·.size)) i),
+        T + shareOf (TxRange.before (b.pfbs.map (·.size)) i + TxRange.unitLen (b.pfbs[i]).size - 1) + 1)) :=
+  TxRange.findTxShareRange_exact b hd i
 
-/-- one past the share of the last byte = the share count of the stream up to that byte -/
-theorem sharesNeeded_eq_shareOf_last (T : Nat) (h : 1 ≤ T) : compactSharesNeeded T = shareOf (T - 1) + 1 := by
-  rw [← sizeOf_eq_compactSharesNeeded]
-  unfold sizeOf shareOf posOf
-  by_cases h1 : T < 474
-  · have : T - 1 < 474 := by omega
-    have h0 : ¬ T = 0 := by omega
-    simp [h1, this, h0]
-  · simp only [h1, if_false]
-    by_cases h2 : T - 1 < 474
-    · have : T = 474 := by omega
-      subst this; simp
-    · simp only [h2, if_false]
-      by_cases h3 : (T - 474) % 478 = 0
-      · simp only [h3, if_true]; omega
-      · simp only [h3, if_false]; omega
+/-- **C12 (out-of-range indexes yield errors).** -/
+theorem findTxShareRange_rejects (b : Builder) (hd : b.done = true) (i : Int)
+    (h : i < 0 ∨ (b.txs.length + b.pfbs.length : Int) ≤ i) : b.findTxShareRange i = .error .err :=
+  TxRange.findTxShareRange_out_of_range b hd i h
 
-/-- **C12 (splitter ranges).** Writing transaction `u` after the transactions `units` records for
-    it exactly `[share of its first byte, share of its last byte + 1)`, where its bytes are the
-    stream offsets `[T, T + len)`, `T` = bytes written before, `len` = varint prefix + body. -/
-theorem splitter_range_exact (ns x : Bytes) (hc : CompactNs ns) (c : CompactSplitter) (units : List Bytes) (u : Bytes)
-    (h : Normal ns x c units) :
-    ∃ c', c.writeTx u = .ok c' ∧
-      c'.ranges = CompactSplitter.setRange c.ranges u
-        (shareOf (unitStream units).length,
-         shareOf ((unitStream units).length + (uvarintLen u.length + u.length) - 1) + 1) := by
-  obtain ⟨c', hw, hN', hr⟩ := writeTx_spec ns x hc c units u h
-  refine ⟨c', hw, ?_⟩
-  rw [hr]
-  have h1 : c.shares.length = shareOf (unitStream units).length := by
-    simp [h.1.shares, shareOf]
-  have hpos := uvarintLen_pos u.length
-  have h2 : c'.count = shareOf ((unitStream units).length + (uvarintLen u.length + u.length) - 1) + 1 := by
-    rw [count_spec ns x hc c' _ hN', unitStream_append]
-    simp only [List.length_append, uvarint_length]
-    rw [sharesNeeded_eq_shareOf_last _ (by omega)]
-  rw [h1, h2]
+/-- **C12 (parsing just the reported shares yields the transaction).** -/
+theorem parsing_the_range_yields_the_tx (ns : Bytes) (hc : CompactNs ns) (units : List Bytes) (hne : units ≠ [])
+    (hu : C09.NonEmptyUnits units) (hlt : (unitStream units).length < 4294967296) (i : Nat) (hi : i < units.length) :
+    let S := (unitStream (units.take i)).length
+    let E := S + (uvarintLen (units[i]).length + (units[i]).length)
+    let lo := shareOf S
+    let hi' := shareOf (E - 1) + 1
+    lo < hi' ∧ hi' ≤ (compactSeq ns units).length ∧
+    ∃ r, parseTxs (((compactSeq ns units).drop lo).take (hi' - lo)) = .ok r ∧ units[i] ∈ r :=
+  RangeParse.parse_range_contains_tx ns hc units hne hu hlt i hi
 
 end GoSquare.C12
